@@ -1,8 +1,10 @@
 //! XPath evaluator domain (C05 C06 C07 C19).
 //!
 //! case line:  `<view> <doc> <nb> (<prefix|~> <uri>)*nb <expr> <expr> ...`
-//!   view = 0 (raw DOM view) | 1 (merged text view, what xq/xe use); strings are decimal code
-//!   points joined by ','; `-` is the empty string; `~` is "no prefix" (default binding).
+//!   view = 0 (raw DOM view) | 1 (merged text view, what xq/xe use) | 2, 3 = the same two views
+//!   but the expressions are only parsed and dumped, not evaluated (no `R` sections: used to let
+//!   the model predict which cases would hang before the real code is run on them); strings are
+//!   decimal code points joined by ','; `-` is the empty string; `~` is "no prefix".
 //! All expressions of one case are evaluated against ONE shared `Context` (C19); the
 //! probes `position()`/`last()` of that context are reported after each query.
 //!
@@ -499,7 +501,8 @@ pub fn case(line: &str) -> String {
     if w.len() < 3 {
         return "badinput".to_string();
     }
-    let merged = w[0] == "1";
+    let merged = w[0] == "1" || w[0] == "3";
+    let dump_only = w[0] == "2" || w[0] == "3";
     let text = match dec(w[1]) {
         Some(s) => s,
         None => return "badinput".to_string(),
@@ -544,6 +547,16 @@ pub fn case(line: &str) -> String {
     let mut asts = vec![];
     let mut results = vec![];
     for e in &exprs {
+        if dump_only {
+            match catch_unwind(AssertUnwindSafe(|| match xml_xpath::expr::parse(e) {
+                Ok((rest, q)) if rest.is_empty() => Some(dump_ast(&q)),
+                _ => None,
+            })) {
+                Ok(Some(a)) => asts.push(format!("A {}", a)),
+                _ => asts.push("A X".to_string()),
+            }
+            continue;
+        }
         let parsed = catch_unwind(AssertUnwindSafe(|| match xml_xpath::expr::parse(e) {
             Ok((rest, q)) if rest.is_empty() => Some(dump_ast(&q)),
             _ => None,
